@@ -5,6 +5,7 @@ package c02
 
 import (
 	"bytes"
+	"crypto/sha256"
 	"encoding/hex"
 	"encoding/json"
 	"fmt"
@@ -564,6 +565,21 @@ func (r *run) sign() {
 			r.n++
 			orig, _ := tx.Bytes(wire.Packet)
 			// wrong passphrases first (also after an earlier successful unlock of this world)
+			if fi == 1 {
+				// ... and once right after every key of the wallet was used through SignHash with
+				// the right passphrase (a signing entry point that leaves what it derived in place):
+				// whatever is cached, a wrong passphrase must still be refused
+				if list, err := W.GetAllAddressesWithPubkey(); err == nil {
+					dg := sha256.Sum256([]byte("verif c03"))
+					for _, ad := range list {
+						if ad.PubKey != nil {
+							if _, err := W.SignHash(ad.PubKey, dg[:], []byte(world.PassA)); err != nil {
+								r.outc["signhash-err:"+err.Error()]++
+							}
+						}
+					}
+				}
+			}
 			for _, wp := range wrong {
 				cp := copyTx(tx)
 				b, err := W.SignRawTx([]byte(wp), flag, cp)
